@@ -1,4 +1,5 @@
 import ComposeVerif.Lemmas.EnvLayers
+import ComposeVerif.Neg.C16
 /-!
 # C16 — service environment and labels are layered with the documented precedence
 
@@ -175,27 +176,36 @@ theorem missing_required_err (penv : List (Key × Str)) (fs : FS) (discard : Boo
   rw [hs, loadEnvFiles_append, hpre]
   simp [loadEnvFiles, loadEnvFile, hm, hr]
 
-/-- success implies that every missing env file was marked not required -/
-theorem ok_implies_required_present (penv : List (Key × Str)) (fs : FS) (discard : Bool) (s s' : Service)
-    (h : resolveServiceEnv penv fs discard s = .ok s') (f : EnvFile) (hf : f ∈ s.envFiles) (hm : fs f.path = none) :
-    f.required = false := by
+/-- a required env file at whose path nothing exists is always an error (of some class), whatever else is listed -/
+theorem missing_required_is_error (penv : List (Key × Str)) (fs : FS) (discard : Bool) (s : Service)
+    (f : EnvFile) (hf : f ∈ s.envFiles) (hm : Missing fs f.path) (hr : f.required = true) :
+    ∃ e, resolveServiceEnv penv fs discard s = .error e := by
   obtain ⟨pre, post, hs⟩ := List.append_of_mem hf
+  unfold resolveServiceEnv
+  rw [hs, loadEnvFiles_append]
+  cases loadEnvFiles penv fs pre [] with
+  | error e => exact ⟨e, rfl⟩
+  | ok acc =>
+    rcases hm with hm | hm
+    · exact ⟨.notFound, by simp [loadEnvFiles, loadEnvFile, hm, hr]⟩
+    · exact ⟨.read, by simp [loadEnvFiles, loadEnvFile, loadMappingFile, hm]⟩
+
+/-- success implies that every env file at whose path nothing exists was marked not required -/
+theorem ok_implies_required_present (penv : List (Key × Str)) (fs : FS) (discard : Bool) (s s' : Service)
+    (h : resolveServiceEnv penv fs discard s = .ok s') (f : EnvFile) (hf : f ∈ s.envFiles) (hm : Missing fs f.path) :
+    f.required = false := by
   cases hr : f.required with
   | false => rfl
   | true =>
-    exfalso
-    cases hpre : loadEnvFiles penv fs pre [] with
-    | ok acc =>
-      rw [missing_required_err penv fs discard s pre post f acc hs hpre hm hr] at h
-      cases h
-    | error e =>
-      unfold resolveServiceEnv at h
-      rw [hs, loadEnvFiles_append, hpre] at h
-      cases h
+    obtain ⟨e, he⟩ := missing_required_is_error penv fs discard s f hf hm hr
+    rw [he] at h
+    cases h
 
-/-- **missing_optional_skipped.**  A missing env file marked not required contributes nothing: the result is
-    the one obtained without listing it (only the reference itself differs). -/
-theorem missing_optional_skipped (penv : List (Key × Str)) (fs : FS) (pre post : List EnvFile) (f : EnvFile)
+/-- **missing_optional_skipped_partial.**  A missing env file marked not required contributes nothing: the result is
+    the one obtained without listing it (only the reference itself differs).  *Partial*: "missing" is `fs f.path = none`
+    (`os.Stat` says ENOENT); for a path under a regular file (ENOTDIR) the full statement is false
+    (`Neg.missing_optional_skipped_false`). -/
+theorem missing_optional_skipped_partial (penv : List (Key × Str)) (fs : FS) (pre post : List EnvFile) (f : EnvFile)
     (acc : List (Key × Str)) (hm : fs f.path = none) (hr : f.required = false) :
     loadEnvFiles penv fs (pre ++ f :: post) acc = loadEnvFiles penv fs (pre ++ post) acc := by
   rw [loadEnvFiles_append, loadEnvFiles_append]
@@ -203,15 +213,19 @@ theorem missing_optional_skipped (penv : List (Key × Str)) (fs : FS) (pre post 
   | error e => rfl
   | ok acc' => simp [loadEnvFiles, loadEnvFile, hm, hr, overrideBy]
 
-theorem missing_optional_skipped_service (penv : List (Key × Str)) (fs : FS) (discard : Bool) (s : Service)
+theorem missing_optional_skipped_service_partial (penv : List (Key × Str)) (fs : FS) (discard : Bool) (s : Service)
     (pre post : List EnvFile) (f : EnvFile) (hs : s.envFiles = pre ++ f :: post)
     (hm : fs f.path = none) (hr : f.required = false) :
     (resolveServiceEnv penv fs discard s).map (·.environment) =
       (resolveServiceEnv penv fs discard { s with envFiles := pre ++ post }).map (·.environment) := by
   unfold resolveServiceEnv
-  rw [hs, missing_optional_skipped penv fs pre post f [] hm hr]
+  rw [hs, missing_optional_skipped_partial penv fs pre post f [] hm hr]
   simp only
   cases loadEnvFiles penv fs (pre ++ post) [] <;> rfl
+
+/-- the negation of the full-strength statement is proved in `Neg/C16.lean` (replayed on the real code on every run) -/
+theorem missing_optional_skipped_full_is_false : ¬ Neg.MissingOptionalSkipped :=
+  Neg.missing_optional_skipped_false
 
 /-- a missing label file is always an error (there is no `required` flag for label files) -/
 theorem missing_label_file_err (fs : FS) (discard : Bool) (s : Service) (p : Str) (hp : p ∈ s.labelFiles)
@@ -407,8 +421,11 @@ example : ∃ acc, loadEnvFiles penv0 fs0 [⟨['f', '1'], true, []⟩] [] = .ok 
 
 example : resolveServiceEnv penv0 fs0 false { s0 with envFiles := [⟨['f', '1'], true, []⟩, ⟨['f', '3'], true, []⟩] } = .error .notFound := rfl
 
-/-- hypotheses of `missing_optional_skipped` -/
+/-- hypotheses of `missing_optional_skipped_partial` -/
 example : fs0 ['f', '3'] = none ∧ (⟨['f', '3'], false, []⟩ : EnvFile).required = false := by decide
+
+/-- hypotheses of `missing_required_is_error` with the ENOTDIR kind of missing -/
+example : Missing Neg.witnessFS Neg.witnessFile.path := Neg.witness_missing.1
 
 /-- hypotheses of `missing_label_file_err` -/
 example : resolveServiceLabels fs0 false { s0 with labelFiles := [['f', '1'], ['f', '3']] } = .error .notFound := rfl
